@@ -381,9 +381,13 @@ Definition seq_eos (cls0 : list bclass) (xlev : list (option nat)) (pl : nat) (i
 
 (* W, N0, N1/N2 on the classes [t0] of one sequence, given sos/eos, the embedding direction and the
    bracket data of its characters *)
-Definition resolve_classes (sos eos edir : bclass) (brks : list (option (N * bool))) (t0 : list bclass)
-  : list bclass :=
-  let orig_nsm := map (fun c => c =c NSM) t0 in
+(* [orig_nsm]: which characters of the sequence had ORIGINAL class NSM.  N0's clause "characters that
+   had original bidirectional character type NSM prior to the application of W1" is read as the
+   Unicode reference implementation (BidiReference.java / BidiPBAReference.setBracketsToType) reads
+   it: the class the character had on input, before any rule — in particular before an X6 override
+   rewrote it. *)
+Definition resolve_classes (sos eos edir : bclass) (brks : list (option (N * bool))) (orig_nsm : list bool)
+           (t0 : list bclass) : list bclass :=
   let t1 := weak sos t0 in
   let pairs := bracket_pairs t1 brks in
   let t2 := fold_left (n0_one sos edir orig_nsm) pairs t1 in
@@ -395,7 +399,8 @@ Definition resolve_sequence (cls0 cls : list bclass) (brk : list (option (N * bo
   let sos := seq_sos xlev pl idx sq in
   let eos := seq_eos cls0 xlev pl idx sq in
   let edir := dir_of_level (lev_at xlev pl (first_of sq)) in
-  let t3 := resolve_classes sos eos edir (map (fun i => snth brk i None) sq) (map (fun i => snth cls i ON) sq) in
+  let t3 := resolve_classes sos eos edir (map (fun i => snth brk i None) sq)
+                            (map (fun i => snth cls0 i ON =c NSM) sq) (map (fun i => snth cls i ON) sq) in
   map (fun ic => (fst ic, implicit_level (lev_at xlev pl (fst ic)) (snd ic))) (combine sq t3).
 
 Fixpoint assoc_nat (k : nat) (l : list (nat * nat)) : option nat :=
@@ -404,11 +409,18 @@ Fixpoint assoc_nat (k : nat) (l : list (nat * nat)) : option nat :=
   | (a, b) :: r => if a =? k then Some b else assoc_nat k r
   end.
 
+(* classes after X1-X8 as the W and N rules see them: the override-rewritten class; an FSI that
+   X5c resolved is the RLI/LRI it is treated as (an FSI with no strong character stays FSI, as in
+   the reported classes of C02; all isolate initiators behave alike under W1-W7 and N0-N2) *)
+Definition x_classes (cls0 xcls : list bclass) : list bclass :=
+  map (fun p => match fst p, snd p with FSI, k => k | k, _ => k end) (combine xcls (reported_classes cls0)).
+
 (* The algorithm for ONE paragraph: paragraph level, level of every character X9 keeps. *)
 Definition resolve_paragraph (cls0 : list bclass) (brk : list (option (N * bool))) (dir : option nat)
   : nat * list (option nat) :=
   let pl := para_level cls0 dir in
-  let '(xlev, cls) := explicit_levels cls0 pl in
+  let '(xlev, xcls) := explicit_levels cls0 pl in
+  let cls := x_classes cls0 xcls in
   let idx := remaining cls0 in
   let seqs := isolating_sequences cls0 xlev in
   let assigned := flat_map (resolve_sequence cls0 cls brk xlev pl idx) seqs in
